@@ -175,7 +175,7 @@ Section Lines.
 End Lines.
 
 (* the state of /repo: false = CRs at the beginning of a sequence line are kept by the async reader *)
-Definition fasta_bol_cr_fixed : bool := false.
+Definition fasta_bol_cr_fixed : bool := true.
 
 (* closed form of the async sequence reader on the flat data; with fx = true it is C12's seq_out *)
 Fixpoint aseq_out (fx : bool) (st : lstate) (d : list N) : list N :=
